@@ -159,6 +159,7 @@ package dawn
 //@   ensures  fail-no-stamp: (n_body == old(n_body) + 1 && !body_ok) ==> (result != nil && phase == 3 && n_save == old(n_save) + 1 && saved_rerun && saved_data == "")
 //@   ensures  success-recorded: (n_body == old(n_body) + 1 && body_ok && result == nil) ==> (phase == 2 && n_save == old(n_save) + 1 && !saved_rerun && saved_data == t.data && saved_deps == depData)
 //@   ensures  success-stamp: (n_body == old(n_body) + 1 && body_ok && result == nil && t.changed) ==> t.data == body_data
+//@   ensures  restamped-after-dependency-change: (n_body == old(n_body) + 1 && body_ok && result == nil && !depsUpToDate) ==> t.data != info.Data
 //@   callsite TargetUpToDate: assert skip-sound: !proj.always && depsUpToDate && upToDate && !info.Rerun
 //@   callsite TargetEvaluating: assert not-skippable: proj.always || !depsUpToDate || !upToDate || info.Rerun
 //@   callsite evaluate: assert after-evaluating: phase == 1 && !proj.dryrun
@@ -456,3 +457,23 @@ package dawn
 // The up-to-date check of a source looks at contents only.
 //@ func (*dawn.sourceFile).upToDate variant content-only
 //@   noeffects mtime
+
+// ---------------------------------------------------------------- C01/C02: up-to-date checks
+// fileSum reads the file system only (trusted: it is a chain of os/crypto calls).
+//@ func dawn.fileSum
+//@   trusted
+
+// A source is up to date exactly when its recorded checksum equals the checksum of its present
+// contents (a missing file has the empty checksum); any other I/O error is returned.
+//@ func (*dawn.sourceFile).upToDate
+//@   requires f != nil
+//@   ensures  compares-contents: result.3 == nil ==> (result.0 <==> old(f.oldSum) == f.sum)
+//@   ensures  reason-given: (result.3 == nil && !result.0) ==> result.1 != ""
+//@   modifies f.sum
+
+// A function target is up to date only if it always runs or its recorded environment equals the
+// current one (then only the presence of its generated files is left to check).
+//@ func (*dawn.function).upToDate
+//@   requires f != nil
+//@   ensures  env-equal-or-always: (result.3 == nil && result.0) ==> (f.always || steq(f.oldEnv, f.newEnv))
+//@   modifies heap, olen, obytes, ipos, dkeys, dvals, it_seen
